@@ -26,6 +26,16 @@ pub struct Env {
     /// CPU affinity of the process (what `available_parallelism` reports): first cpu, count
     #[serde(default)]
     pub cpus: Option<(usize, usize)>,
+    /// files present on disk when the process starts: (path relative to the private directory, index into
+    /// `envmodel::MANIFESTS`) — the user's Cargo.toml as a proc-macro would find it
+    #[serde(default)]
+    pub files: Vec<(String, usize)>,
+    /// `CARGO_MANIFEST_DIR` = this sub-directory of the private directory
+    #[serde(default)]
+    pub manifest_dir: Option<String>,
+    /// name under which the host executable runs (`current_exe()`): rustc, rust-analyzer-proc-macro-srv, ...
+    #[serde(default)]
+    pub host: Option<String>,
 }
 
 impl Env {
@@ -38,6 +48,9 @@ impl Env {
             aslr_off: true,
             cwd: None,
             cpus: None,
+            files: vec![],
+            manifest_dir: None,
+            host: None,
         }
     }
 }
@@ -120,7 +133,29 @@ pub fn run_child(ctx: &Ctx, env: &Env, sched: &Schedule, durable: &Durable) -> R
     if env.aslr_off {
         argv.extend(["setarch".to_string(), std::env::consts::ARCH.to_string(), "-R".to_string()]);
     }
-    argv.push(ctx.exe.clone());
+    let exe = match &env.host {
+        Some(name) => {
+            // the same binary under the name of a real proc-macro host (what `current_exe()` reports)
+            let dir = durable.path.join(".host");
+            std::fs::create_dir_all(&dir).map_err(|e| format!("host dir: {e}"))?;
+            let link = dir.join(name);
+            if !link.exists() && std::fs::hard_link(&ctx.exe, &link).is_err() {
+                std::fs::copy(&ctx.exe, &link).map_err(|e| format!("host copy: {e}"))?;
+            }
+            link.to_string_lossy().to_string()
+        }
+        None => ctx.exe.clone(),
+    };
+    argv.push(exe);
+    for (rel, idx) in &env.files {
+        let path = durable.path.join(rel);
+        if let Some(parent) = path.parent() {
+            std::fs::create_dir_all(parent).map_err(|e| format!("mkdir for {rel}: {e}"))?;
+        }
+        if !path.exists() {
+            std::fs::write(&path, crate::envmodel::MANIFESTS[*idx % crate::envmodel::MANIFESTS.len()]).map_err(|e| format!("write {rel}: {e}"))?;
+        }
+    }
     let mut cmd = Command::new(&argv[0]);
     cmd.args(&argv[1..]);
     cmd.arg("session");
@@ -141,6 +176,12 @@ pub fn run_child(ctx: &Ctx, env: &Env, sched: &Schedule, durable: &Durable) -> R
     cmd.env("XDG_CACHE_HOME", &durable.path);
     for (k, v) in &env.junk {
         cmd.env(k, v);
+    }
+    if let Some(md) = &env.manifest_dir {
+        let d = durable.path.join(md);
+        std::fs::create_dir_all(&d).map_err(|e| format!("manifest dir: {e}"))?;
+        cmd.env("CARGO_MANIFEST_DIR", &d);
+        cmd.env("CARGO_MANIFEST_PATH", d.join("Cargo.toml"));
     }
     let cwd = match &env.cwd {
         Some(sub) => {
@@ -258,59 +299,33 @@ pub struct Corpus {
     pub base: Vec<Key>,
     pub faults: Vec<Key>,
     pub derives: Vec<&'static str>,
-    /// environment variables the code under simulation was seen asking for (discovery pre-pass)
-    pub env_names: Vec<String>,
+    /// environment variables the code under simulation was seen asking for (discovery pre-pass),
+    /// each with candidate values
+    pub env_names: Vec<(String, Vec<String>)>,
 }
 
-fn junk_env(r: &mut Rng, discovered: &[String]) -> Vec<(String, String)> {
-    let mut v = Vec::new();
-    // variables the expanders were seen reading get seeded values (or stay unset)
-    for n in discovered {
-        if r.chance(2, 3) {
-            let val = match r.below(5) {
-                0 => String::new(),
-                1 => "1".to_string(),
-                2 => "0".to_string(),
-                3 => format!("v{}", r.below(1000)),
-                _ => "true".to_string(),
-            };
-            v.push((n.clone(), val));
-        }
+fn gen_env(r: &mut Rng, discovered: &[(String, Vec<String>)]) -> Env {
+    let cwd = if r.chance(1, 2) { Some(r.pick(&["w", "deep/er/still", "x y"]).to_string()) } else { None };
+    let mut files = Vec::new();
+    if r.chance(1, 3) {
+        // a manifest in the working directory (cargo starts rustc in the workspace root)
+        let dir = cwd.clone().map(|d| format!("{d}/")).unwrap_or_default();
+        files.push((format!("{dir}Cargo.toml"), r.below(crate::envmodel::MANIFESTS.len())));
     }
-    if r.chance(1, 2) {
-        v.push(("LANG".into(), r.pick(&["C", "en_US.UTF-8", "tr_TR.UTF-8", "ja_JP.eucJP"]).to_string()));
-    }
-    if r.chance(1, 2) {
-        v.push(("TZ".into(), r.pick(&["UTC", "Asia/Kathmandu", "America/St_Johns"]).to_string()));
-    }
-    if r.chance(1, 2) {
-        v.push(("SOURCE_DATE_EPOCH".into(), (r.next() % 2_000_000_000).to_string()));
-    }
-    if r.chance(1, 2) {
-        v.push(("CARGO_PKG_NAME".into(), format!("crate_{}", r.below(1000))));
-        v.push(("CARGO_MANIFEST_DIR".into(), format!("/work/{}", r.below(1000))));
-        v.push(("RUSTFLAGS".into(), "-Cdebuginfo=2".into()));
-    }
-    if r.chance(1, 2) {
-        v.push(("RUST_BACKTRACE".into(), r.pick(&["0", "1", "full"]).to_string()));
-    }
-    // the environment block sits above the stack: its size displaces every stack address
-    let pad = *r.pick(&[0usize, 1, 7, 64, 333, 4096, 20000]);
-    if pad > 0 {
-        v.push(("VERIF_PAD".into(), "x".repeat(pad)));
-    }
-    v
-}
-
-fn gen_env(r: &mut Rng, discovered: &[String]) -> Env {
+    let manifest_dir = if r.chance(1, 3) {
+        files.push(("pkg/Cargo.toml".to_string(), r.below(crate::envmodel::MANIFESTS.len())));
+        Some("pkg".to_string())
+    } else {
+        None
+    };
     Env {
         entropy_seed: if r.chance(1, 8) { 0 } else { r.next() },
         clock_base: if r.chance(1, 2) { Some(1_000_000_000 + r.next() % 1_000_000_000) } else { None },
         fake_pid: if r.chance(1, 2) { Some(2 + (r.next() % 60000) as u32) } else { None },
-        junk: junk_env(r, discovered),
+        junk: crate::envmodel::draw_vars(r, discovered),
         aslr_off: true,
         // a sub-directory of the process's private directory
-        cwd: if r.chance(1, 2) { Some(r.pick(&["w", "deep/er/still", "x y"]).to_string()) } else { None },
+        cwd,
         cpus: if r.chance(1, 3) {
             let n = *r.pick(&[1usize, 2, 3, 8]);
             // planned for a 16-cpu host; clamped to the real machine when the process is started
@@ -318,6 +333,9 @@ fn gen_env(r: &mut Rng, discovered: &[String]) -> Env {
         } else {
             None
         },
+        files,
+        manifest_dir,
+        host: if r.chance(1, 3) { Some(r.pick(crate::envmodel::HOSTS).to_string()) } else { None },
     }
 }
 
@@ -347,8 +365,19 @@ pub fn gen_session(seed: u64, index: u64, c: &Corpus) -> Session {
         probes.push(keys.len());
         keys.push(k);
     }
+    // half of the picks are stratified by derive, so that rarely used derives are not starved
+    let mut by_derive: BTreeMap<&str, Vec<usize>> = BTreeMap::new();
+    for (i, k) in c.base.iter().enumerate() {
+        by_derive.entry(k.derive.as_str()).or_default().push(i);
+    }
+    let derive_names: Vec<&str> = by_derive.keys().copied().collect();
     for _ in 0..n_base {
-        let k = r.pick(&c.base).clone();
+        let k = if r.chance(1, 2) && !derive_names.is_empty() {
+            let d = *r.pick(&derive_names);
+            c.base[*r.pick(&by_derive[d])].clone()
+        } else {
+            r.pick(&c.base).clone()
+        };
         if r.chance(1, 3) {
             probes.push(keys.len());
         }
@@ -797,6 +826,22 @@ pub fn minimise(ctx: &Ctx, refs: &RefCache, d: &Divergence, s: &Session, seed: u
     e.cpus = None;
     try_env(e, &mut env_min, &mut steps);
     let mut e = env_min.clone();
+    e.host = None;
+    try_env(e, &mut env_min, &mut steps);
+    let mut e = env_min.clone();
+    e.manifest_dir = None;
+    try_env(e, &mut env_min, &mut steps);
+    let mut i = 0;
+    while i < env_min.files.len() {
+        let mut e = env_min.clone();
+        e.files.remove(i);
+        let before = env_min.files.len();
+        try_env(e, &mut env_min, &mut steps);
+        if env_min.files.len() == before {
+            i += 1;
+        }
+    }
+    let mut e = env_min.clone();
     e.clock_base = None;
     try_env(e, &mut env_min, &mut steps);
     let mut e = env_min.clone();
@@ -857,6 +902,10 @@ fn describe(env: &Env, sched: &Schedule, ec: &str, oc: &str) -> String {
     let n = sched.requests.len();
     let why = if n == 1 && env.entropy_seed != 0 && env.junk.is_empty() {
         "depends on the process's entropy (hash seeds)"
+    } else if n == 1 && env.host.is_some() {
+        "depends on the name of the host executable"
+    } else if n == 1 && !env.files.is_empty() {
+        "depends on a file found on disk (the user's manifest)"
     } else if n == 1 && !env.junk.is_empty() {
         "depends on the process environment (environment variables / block size)"
     } else if n == 1 {
